@@ -65,6 +65,8 @@ class State:
         self.frames: list[dict[str, set[str]]] = []
         self.last_call: ast.AST | None = None
         self.load_failed: tuple | None = None
+        self.is_tuple: set[str] = set()  # names known (on this path) to hold a tuple
+        self.length: dict[str, int] = {}  # names known (on this path) to have this length
 
 
 class Interp:
@@ -307,6 +309,18 @@ class Interp:
             return  # the expanded call already bound its return value
         if isinstance(node, ast.Assign):
             t = self.tags(node.value, st, fn)
+            for tgt in node.targets:
+                # R-SHAPE: unpacking what came out of the file needs a shape test first - anything can be in the file
+                if isinstance(tgt, (ast.Tuple, ast.List)) and "load" in t and isinstance(node.value, ast.Name) and not any(isinstance(e, ast.Starred) for e in tgt.elts):
+                    name = node.value.id
+                    if not (name in st.is_tuple and st.length.get(name) == len(tgt.elts)) and not self._inside_catch_all(node):
+                        self.flag("R-SHAPE", f"{fn.qual}::unpack::{unparse(node)[:50]}", node,
+                                  f"{fn.qual}: `{unparse(node)[:60]}` unpacks the loaded object without a test on this path that it is a tuple of length {len(tgt.elts)}",
+                                  "a cache file written by another version / another program (or a colliding name) makes the call raise ValueError / TypeError instead of recomputing")
+                for n_ in ast.walk(tgt):
+                    if isinstance(n_, ast.Name):
+                        st.is_tuple.discard(n_.id)
+                        st.length.pop(n_.id, None)
             if isinstance(node.value, ast.Constant) and node.value.value is None:
                 t = {"none"}  # `cached = None` in a handler: the sentinel for "nothing usable was loaded"
             for tgt in node.targets:
@@ -320,6 +334,19 @@ class Interp:
             if "<ret>" in st.tags and isinstance(node.value, ast.Call):
                 t = st.tags.pop("<ret>")
             self.judge_return(node, t, st, fn)
+
+    @staticmethod
+    def _inside_catch_all(node: ast.AST) -> bool:
+        """The statement sits in the body of a `try` whose handlers catch Exception / everything (the failure is tolerated)."""
+        from ..loader import ancestors
+
+        prev = node
+        for a in ancestors(node):
+            if isinstance(a, ast.Try) and any(prev is b or any(prev is x for x in ast.walk(b)) for b in a.body):
+                if any(h.type is None or unparse(h.type) in {"Exception", "BaseException"} or (isinstance(h.type, ast.Tuple) and {"ValueError", "TypeError"} <= {unparse(e) for e in h.type.elts}) for h in a.handlers):
+                    return True
+            prev = a
+        return False
 
     def judge_return(self, node: ast.Return, t: set[str], st: State, fn: FuncInfo) -> None:
         key_base = f"{fn.qual}::return"
@@ -348,6 +375,16 @@ class Interp:
                 for v in test.values:
                     self.test(v, False, st, fn)
             return
+        if isinstance(test, ast.Call) and isinstance(test.func, ast.Name) and test.func.id == "isinstance" and len(test.args) == 2 and isinstance(test.args[0], ast.Name) and outcome:
+            if unparse(test.args[1]) in {"tuple", "(tuple,)"}:
+                st.is_tuple.add(test.args[0].id)
+        if isinstance(test, ast.Compare) and len(test.ops) == 1:
+            lhs, rhs, op_ = test.left, test.comparators[0], test.ops[0]
+            if isinstance(rhs, ast.Call) and isinstance(lhs, ast.Constant):
+                lhs, rhs = rhs, lhs
+            if (isinstance(lhs, ast.Call) and isinstance(lhs.func, ast.Name) and lhs.func.id == "len" and len(lhs.args) == 1 and isinstance(lhs.args[0], ast.Name)
+                    and isinstance(rhs, ast.Constant) and type(rhs.value) is int and ((isinstance(op_, ast.Eq) and outcome) or (isinstance(op_, ast.NotEq) and not outcome))):
+                st.length[lhs.args[0].id] = rhs.value
         if isinstance(test, ast.Compare) and len(test.ops) == 1:
             l, r = test.left, test.comparators[0]
             tl, tr = self.tags(l, st, fn), self.tags(r, st, fn)
@@ -513,6 +550,44 @@ _FS_ERRORS = ("FileExistsError", "FileNotFoundError", "OSError", "IOError", "Per
 _FS_OBSERVERS = {"exists", "is_file", "is_dir", "stat", "lstat", "access", "listdir", "iterdir", "scandir", "glob", "rglob", "isfile", "isdir", "getsize", "getmtime", "samefile"}
 
 
+def check_temp_in_same_directory(ctx: Check, tree: Tree) -> None:
+    """R-SAMEDIR: publication by rename is atomic only inside one file system.  Every creation of the temporary on the
+    cache path (mkstemp / NamedTemporaryFile / mkdtemp) must name a directory (`dir=`) that is derived from the final
+    path - its `.parent` / `os.path.dirname` / the cache directory the final name was built from; the system default
+    temporary directory is usually another file system (the rename then fails or is a copy)."""
+    graph = tree.call_graph()
+    reach = {ENTRY, *[q for q in tree.reachable(ENTRY, graph) if q.startswith("ampform.sympy")]}
+    n = 0
+    for q in sorted(reach):
+        fn = tree.funcs.get(q)
+        if fn is None:
+            continue
+        for c in [x for x in walk_function(fn.node, nested=False) if isinstance(x, ast.Call)]:
+            callee = tree.callee(c, fn) or ""
+            if callee not in {"tempfile.mkstemp", "tempfile.NamedTemporaryFile", "tempfile.mkdtemp", "tempfile.TemporaryDirectory"}:
+                continue
+            n += 1
+            d = next((k.value for k in c.keywords if k.arg == "dir"), None)
+            if d is None and callee == "tempfile.mkstemp" and len(c.args) >= 3:
+                d = c.args[2]
+            key = f"{q}::{callee.split('.')[-1]}::same-directory"
+            if d is None or (isinstance(d, ast.Constant) and d.value is None):
+                ctx.violation("R-SAMEDIR", key, tree.loc(c), f"{q}: `{unparse(c)[:60]}` creates the temporary in the system default directory, not next to the cache file",
+                              "os.replace onto the final name is then a cross-device rename: it fails (OSError) or is not atomic, so readers can see a partial file")
+                continue
+            # the path the temporary is renamed to in this function (else: the function's parameters)
+            dests = [r.args[1] for r in walk_function(fn.node, nested=False) if isinstance(r, ast.Call) and (tree.callee(r, fn) or "") in RENAMES and len(r.args) >= 2]
+            params = {x.id for e in dests for x in ast.walk(e) if isinstance(x, ast.Name)} or set(fn.params)
+            derived = any(isinstance(x, ast.Name) and x.id in params for x in ast.walk(d)) and (
+                any(isinstance(x, ast.Attribute) and x.attr in {"parent", "parents"} for x in ast.walk(d)) or any(isinstance(x, ast.Call) and unparse(x.func).split(".")[-1] in {"dirname", "split"} for x in ast.walk(d)) or isinstance(d, ast.Name))
+            if derived:
+                ctx.ok("R-SAMEDIR", tree.loc(c), f"{q}: the temporary is created in `{unparse(d)[:40]}`, derived from the path it is renamed to")
+            else:
+                raise AnalysisError(f"{q}: whether `dir={unparse(d)[:40]}` is the directory of the final cache file cannot be read")
+    if n == 0:
+        ctx.info("R-SAMEDIR", "src/ampform/sympy", "no temporary file is created on the cache path")
+
+
 def check_no_raise_on_contents(ctx: Check, tree: Tree) -> None:
     """R-NORAISE: perform_cached_doit "never raises because of the directory's contents".  Positive evidence of the
     opposite: a function on the cache path that RAISES where it has just learnt something about the directory - inside a
@@ -548,12 +623,35 @@ def check_no_raise_on_contents(ctx: Check, tree: Tree) -> None:
             hits += 1
             ctx.violation("R-NORAISE", f"{q}::raise::{unparse(r)[:60]}", tree.loc(r), f"{q}: `{unparse(r)[:70]}` {why}: the call raises because of what it finds in the cache directory",
                           "a file left behind by a killed or concurrent process (a stale lock, a half-written entry) must lead to recomputation, not to an exception")
+    # creating the cache directory: must not fail because it already exists (every call after the first) nor because
+    # its parents do not exist yet (the first call on a fresh machine)
+    graph = tree.call_graph()
+    for q in sorted({ENTRY, *[x for x in tree.reachable(ENTRY, graph) if x.startswith("ampform.sympy")]}):
+        fn = tree.funcs.get(q)
+        if fn is None:
+            continue
+        for c in [x for x in walk_function(fn.node, nested=False) if isinstance(x, ast.Call) and isinstance(x.func, ast.Attribute) and x.func.attr in {"mkdir", "makedirs"}]:
+            kw = {k.arg: k.value for k in c.keywords if k.arg}
+            if any(k.arg is None for k in c.keywords):
+                raise AnalysisError(f"{q}: `{unparse(c)[:50]}` takes **options: whether an existing directory is tolerated cannot be read")
+            def is_true(name: str) -> bool:
+                return isinstance(kw.get(name), ast.Constant) and kw[name].value is True
+            missing = [n_ for n_ in (("exist_ok",) if c.func.attr == "makedirs" else ("exist_ok", "parents")) if not is_true(n_)]
+            n += 1
+            if missing:
+                hits += 1
+                ctx.violation("R-NORAISE", f"{q}::{c.func.attr}::{','.join(missing)}", tree.loc(c), f"{q}: `{unparse(c)[:60]}` without {' and '.join(m + '=True' for m in missing)}",
+                              "the call raises FileExistsError from the second use of a cache directory on (exist_ok) / FileNotFoundError on the first use of a fresh location (parents)")
+            else:
+                ctx.ok("R-NORAISE", tree.loc(c), f"{q}: `{unparse(c)[:60]}` tolerates an existing directory and creates missing parents")
     if hits == 0:
         ctx.ok("R-NORAISE", "src/ampform/sympy", f"no raise on the perform_cached_doit path is conditioned on the contents of the cache directory ({n} raise statements in ampform.sympy / _cache judged)")
 
 
 def run(ctx: Check, tree: Tree) -> None:
     ctx.decided += [
+        "R-SHAPE: the loaded object is unpacked only after a test on that path that it is a tuple of the right length (any content of the file leads to recomputation, not to an exception)",
+        "R-SAMEDIR: the temporary that is renamed onto the final name is created in the directory of the final name (rename is atomic only within a file system)",
         "R-NORAISE: nothing on the cache path raises inside a handler of a file-system error or under a test that observes the file system",
         "R-VERIFY: every value returned by perform_cached_doit is the result of doit() or a loaded value that was compared equal to the query expression on that path",
         "R-TOLERATE: exceptions of pickle.load / opening the cache file cannot propagate out; handler paths reach recomputation",
@@ -609,12 +707,15 @@ def run(ctx: Check, tree: Tree) -> None:
         ctx.ok("R-VERIFY", where, f"{len(paths)} paths: {interp.ok_counts['verified_returns']} return a verified cache entry, {interp.ok_counts['doit_returns']} return doit()")
     if "R-TOLERATE" not in rules_bad:
         ctx.ok("R-TOLERATE", where, f"{n_loads} load site(s): every raising path is caught ({interp.ok_counts['tolerated']} handler entries) and continues to a judged return")
+    if "R-SHAPE" not in rules_bad:
+        ctx.ok("R-SHAPE", where, "the loaded object is unpacked only on paths that tested it to be a tuple of the unpacked length (or inside a catch-all try)")
     if "R-PUBLISH" not in rules_bad:
         ctx.ok("R-PUBLISH", where, f"final cache file is never opened for writing; {interp.ok_counts['publishes']} path(s) publish by rename from a unique temporary")
     ctx.section(check_hash_function, ctx, tree)
     ctx.section(check_foreign_deletes, ctx, tree)
     ctx.section(check_no_unbounded_wait, ctx, tree)
     ctx.section(check_no_raise_on_contents, ctx, tree)
+    ctx.section(check_temp_in_same_directory, ctx, tree)
     # the stored key is compared with `==`: for expressions that differ only in a non-SymPy attribute that
     # comparison is decided by the hashable content (rule shared with C14)
     from .c14 import check_content_injective
